@@ -15,7 +15,7 @@ import math
 from dataclasses import dataclass
 from typing import Optional
 
-from ..model import AnalysisError, dotted, last_attr, norm_text, walk_no_nested
+from ..model import AnalysisError, dotted, last_attr, norm_text
 
 MOD = "abtem.transfer"
 TOL = 1e-9
